@@ -225,6 +225,8 @@ func specMutations(f *Func) []Func {
 	}
 	add(func(c *Func) bool { ok := c.Callback; c.Callback = false; return ok })
 	add(func(c *Func) bool { ok := c.Info; c.Info = false; return ok })
+	add(func(c *Func) bool { ok := c.LocPC; c.LocPC = false; return ok })
+	add(func(c *Func) bool { ok := c.ReuseInfo; c.ReuseInfo = false; return ok })
 	add(func(c *Func) bool { ok := c.Export; c.Export = false; return ok })
 	add(func(c *Func) bool { ok := c.DurNs != 0; c.DurNs = 0; return ok })
 	if f.Cat >= 0 {
